@@ -74,7 +74,10 @@ def main():
         sid = os.path.basename(os.path.dirname(m))
         if prefixes and not any(sid.startswith(p) for p in prefixes):
             continue
-        items.append((sid, json.load(open(m))))
+        meta = json.load(open(m))
+        if meta.get("retired"):
+            continue
+        items.append((sid, meta))
     scratch = tempfile.mkdtemp(prefix="verif-regress-")
     os.makedirs(os.path.join(scratch, "evid"), exist_ok=True)
     out = {}
